@@ -6,6 +6,7 @@
 -/
 import Ladybug.Proofs.CalLemmas
 import Ladybug.Proofs.C08Hist
+import Ladybug.Proofs.C08R4
 
 namespace Cal
 
@@ -600,6 +601,239 @@ example : Hist.specRun (false, 0) [.fromMoy true 527039, .addMin 1, .fromMoy fal
     (true, 525600) := by decide
 example : Hist.specRun (false, 61) [.fromDoy true 366, .fromDoy true 367, .setMod 1440, .setMod 7] =
     (true, 525607) := by decide
+
+/-! ### Round 4: fractional offsets, fractional constructor arguments, sibling classes, branches -/
+
+/-- **Offsets that are not whole minutes.**  `add_minute(x)` uses `int(x)` (toward zero) and
+    `sub_minute(x)` negates first; because truncation is odd the pair is inverse for EVERY real
+    offset that keeps the sum inside the year, and the sum is within one minute of the exact one. -/
+theorem C08_add_sub_fraction (d : DT) (hv : d.valid) (x : Rat)
+    (h0 : 0 ≤ (d.moy : Int) + Py.truncRat x) (h1 : (d.moy : Int) + Py.truncRat x < minutesInYear d.leap) :
+    ∃ e, d.addMinuteQ x = .ok e ∧ e.valid ∧ (e.moy : Int) = (d.moy : Int) + Py.truncRat x ∧
+      ((e.moy : Int) : Rat) - ((d.moy : Int) + x) < 1 ∧ ((d.moy : Int) + x) - ((e.moy : Int) : Rat) < 1 ∧
+      e.subMinuteQ x = .ok d := by
+  obtain ⟨e, he, hev, hemoy, hsub⟩ := C08_add_sub_minute d hv (Py.truncRat x) h0 h1
+  obtain ⟨n1, n2⟩ := truncRat_near x
+  refine ⟨e, he, hev, hemoy, ?_, ?_, ?_⟩
+  · rw [hemoy, Rat.intCast_add]; grind
+  · rw [hemoy, Rat.intCast_add]; grind
+  · unfold DT.subMinuteQ DT.addMinuteQ
+    rw [truncRat_neg]
+    exact hsub
+
+/-- The same with the subtraction first: `d.sub_minute(x).add_minute(x) = d`. -/
+theorem C08_sub_add_fraction (d : DT) (hv : d.valid) (x : Rat)
+    (h0 : 0 ≤ (d.moy : Int) - Py.truncRat x) (h1 : (d.moy : Int) - Py.truncRat x < minutesInYear d.leap) :
+    ∃ e, d.subMinuteQ x = .ok e ∧ e.valid ∧ e.addMinuteQ x = .ok d := by
+  have h0' : 0 ≤ (d.moy : Int) + Py.truncRat (-x) := by rw [truncRat_neg]; omega
+  have h1' : (d.moy : Int) + Py.truncRat (-x) < minutesInYear d.leap := by rw [truncRat_neg]; omega
+  obtain ⟨e, he, hev, _, _, _, hback⟩ := C08_add_sub_fraction d hv (-x) h0' h1'
+  refine ⟨e, he, hev, ?_⟩
+  unfold DT.subMinuteQ at hback
+  rw [Rat.neg_neg] at hback
+  exact hback
+
+/-- Hours at any resolution (full strength of `C08_add_sub_hour`, which covered whole minutes only):
+    `add_hour(h)` then `sub_hour(h)` returns the start for every real product `x = 60·h`. -/
+theorem C08_add_sub_hour_fraction (d : DT) (hv : d.valid) (x : Rat)
+    (h0 : 0 ≤ (d.moy : Int) + Py.truncRat x) (h1 : (d.moy : Int) + Py.truncRat x < minutesInYear d.leap) :
+    ∃ e, d.addHourTimes60 x = .ok e ∧ e.addHourTimes60 (-x) = .ok d := by
+  obtain ⟨e, he, _, _, _, _, hsub⟩ := C08_add_sub_fraction d hv x h0 h1
+  exact ⟨e, he, hsub⟩
+
+/-- Inside ANY history: `add_hour(h)` followed by `sub_hour(h)` cancels for every real `h` (not only
+    whole minutes) as long as the truncated sum stays inside the year. -/
+theorem Hist.C08_history_add_sub_hour_fraction (o : Hist.Obj) (hv : o.cur.valid) (pre : List Hist.Op) (x : Rat)
+    (h0 : 0 ≤ ((Hist.run o pre).cur.moy : Int) + Py.truncRat x)
+    (h1 : ((Hist.run o pre).cur.moy : Int) + Py.truncRat x < minutesInYear (Hist.run o pre).cur.leap) :
+    Hist.run o (pre ++ [.addHour x, .subHour x]) = Hist.run o pre := by
+  have hrun : ∀ (o : Hist.Obj) (a b : List Hist.Op), Hist.run o (a ++ b) = Hist.run (Hist.run o a) b := by
+    intro o a b
+    induction a generalizing o with
+    | nil => rfl
+    | cons x xs ih => exact ih _
+  rw [hrun]
+  have hvp := Hist.run_valid hv pre
+  obtain ⟨e, he, hsub⟩ := C08_add_sub_hour_fraction (Hist.run o pre).cur hvp x h0 h1
+  have s1 : Hist.step (Hist.run o pre) (.addHour x) = (⟨e⟩, .obs (Hist.observe e)) := by
+    unfold Hist.step; simp only [Hist.apply, he]
+  have s2 : Hist.step ⟨e⟩ (.subHour x) = (⟨(Hist.run o pre).cur⟩, .obs (Hist.observe (Hist.run o pre).cur)) := by
+    unfold Hist.step; simp only [Hist.apply, hsub]
+  simp only [Hist.run, s1, s2]
+
+/-- **Both branches of `_calculate_hour_and_minute`.**  For a fractional part `0 ≤ prod < 60` minutes:
+    the `minute == 60` branch is taken exactly from 59.5 minutes on and carries into the next hour;
+    otherwise the hour is kept; in both branches the minute is 0..59 and the (hour, minute) pair is
+    within half a minute of the exact time. -/
+theorem C08_calc_hm_branches (hour : Int) (prod : Rat) (h0 : 0 ≤ prod) (h1 : prod < 60) :
+    ((119 : Rat) / 2 ≤ prod → calcHM hour prod = (hour + 1, 0)) ∧
+    (prod < (119 : Rat) / 2 → (calcHM hour prod).1 = hour ∧ (calcHM hour prod).2 = Py.round prod) ∧
+    0 ≤ (calcHM hour prod).2 ∧ (calcHM hour prod).2 ≤ 59 ∧
+    ((((calcHM hour prod).1 * 60 + (calcHM hour prod).2 : Int) : Rat) - ((hour * 60 : Int) + prod) ≤ 1 / 2) ∧
+    (((hour * 60 : Int) + prod) - (((calcHM hour prod).1 * 60 + (calcHM hour prod).2 : Int) : Rat) ≤ 1 / 2) := by
+  obtain ⟨r1, r2⟩ := round_near prod
+  -- the rounded minute is an integer between 0 and 60
+  have hlo : (0 : Int) ≤ Py.round prod := by
+    have : ((-1 : Int) : Rat) < ((Py.round prod : Int) : Rat) := by
+      have e : ((-1 : Int) : Rat) = -1 := by decide +kernel
+      rw [e]; grind
+    have := Rat.intCast_lt_intCast.mp this
+    omega
+  have hhi : Py.round prod ≤ 60 := by
+    have : ((Py.round prod : Int) : Rat) < ((61 : Int) : Rat) := by
+      have e : ((61 : Int) : Rat) = 61 := by decide +kernel
+      rw [e]; grind
+    have := Rat.intCast_lt_intCast.mp this
+    omega
+  have c60 : ((60 : Int) : Rat) = 60 := by decide +kernel
+  by_cases hr : Py.round prod = 60
+  · have hge : (119 : Rat) / 2 ≤ prod := by
+      have : ((Py.round prod : Int) : Rat) = 60 := by rw [hr]; exact c60
+      grind
+    have hc : calcHM hour prod = (hour + 1, 0) := by unfold calcHM; rw [if_pos hr]
+    refine ⟨fun _ => hc, fun hlt => ?_, ?_, ?_, ?_, ?_⟩
+    · exact absurd hge (by grind)
+    · rw [hc]; show (0 : Int) ≤ 0; omega
+    · rw [hc]; show (0 : Int) ≤ 59; omega
+    · rw [hc]
+      have e : (((hour + 1) * 60 + 0 : Int) : Rat) = ((hour * 60 : Int) : Rat) + 60 := by
+        rw [show (hour + 1) * 60 + 0 = hour * 60 + 60 by omega, Rat.intCast_add, c60]
+      simp only [e]; grind
+    · rw [hc]
+      have e : (((hour + 1) * 60 + 0 : Int) : Rat) = ((hour * 60 : Int) : Rat) + 60 := by
+        rw [show (hour + 1) * 60 + 0 = hour * 60 + 60 by omega, Rat.intCast_add, c60]
+      simp only [e]; grind
+  · have hc : calcHM hour prod = (hour, Py.round prod) := by unfold calcHM; rw [if_neg hr]
+    have hlt : prod < (119 : Rat) / 2 := by
+      -- otherwise the rounded value is at least 59.5 - 0.5 = 59 ... and in fact 60
+      apply Classical.byContradiction
+      intro hn
+      have h59 : ((59 : Int) : Rat) < ((Py.round prod : Int) : Rat) ∨ ((Py.round prod : Int) : Rat) = 59 := by
+        have e : ((59 : Int) : Rat) = 59 := by decide +kernel
+        rw [e]; grind
+      rcases h59 with h | h
+      · have := Rat.intCast_lt_intCast.mp h; omega
+      · -- round = 59 with prod ≥ 59.5 forces the tie 59.5, which rounds to the even 60
+        have hp : prod = (119 : Rat) / 2 := by
+          have e : ((59 : Int) : Rat) = 59 := by decide +kernel
+          grind
+        rw [hp] at hr
+        exact hr (by decide +kernel)
+    refine ⟨fun hge => absurd hge (by grind), fun _ => ⟨by rw [hc], by rw [hc]⟩, ?_, ?_, ?_, ?_⟩
+    · rw [hc]; exact hlo
+    · rw [hc]; show Py.round prod ≤ 59; omega
+    · rw [hc]
+      have e : ((hour * 60 + Py.round prod : Int) : Rat) = ((hour * 60 : Int) : Rat) + ((Py.round prod : Int) : Rat) :=
+        Rat.intCast_add _ _
+      simp only [e]; grind
+    · rw [hc]
+      have e : ((hour * 60 + Py.round prod : Int) : Rat) = ((hour * 60 : Int) : Rat) + ((Py.round prod : Int) : Rat) :=
+        Rat.intCast_add _ _
+      simp only [e]; grind
+
+/-- On whole hour / minute arguments the general normalisation is the integer carry of `normHM`
+    used by Model/Cal (the exact product of a whole minute `mi < 60` is `mi`). -/
+theorem C08_calc_hm_whole (hour : Int) (mi : Nat) (h : mi ≤ 59) : calcHM hour (mi : Rat) = (hour, (mi : Int)) := by
+  have hr : Py.round ((mi : Nat) : Rat) = (mi : Int) := by
+    have : ((mi : Nat) : Rat) = (((mi : Int)) : Rat) := rfl
+    rw [this]
+    unfold Py.round
+    have h0 : ((mi : Int) : Rat) - ((mi : Int) : Rat) = 0 := Rat.sub_self
+    have h1 : (0 : Rat) < 1 / 2 := by decide +kernel
+    simp [Rat.floor_intCast, h0, h1]
+  unfold calcHM
+  rw [hr]
+  have : ¬ ((mi : Int) = 60) := by omega
+  rw [if_neg this]
+
+/-- **The three sibling classes describe one instant.**  For a valid date-time, its `Date` and `Time`
+    parts are valid objects of their own classes with the same day of the year and the minute of the
+    day; `Date.from_doy` / `Time.from_mod` / `from_date_and_time` rebuild them from those indices; the
+    date-time's array is the date's (month, day), the time's (hour, minute) and the leap mark. -/
+theorem C08_siblings (d : DT) (hv : d.valid) :
+    let da : D := ⟨d.month, d.day, d.leap⟩
+    let t : T := ⟨d.hour, d.minute⟩
+    D.make d.month d.day d.leap = .ok da ∧ T.make d.hour d.minute = .ok t ∧
+    da.doy = d.doy ∧ t.mod = d.moy % 1440 ∧ d.moy = (da.doy - 1) * 1440 + t.mod ∧
+    fromDoy d.leap d.doy = .ok da ∧ fromMod (d.moy % 1440) = .ok t ∧
+    Hist.fromDateAndTime da t = .ok d ∧
+    d.toArray = [da.month, da.day] ++ t.toArray ++ (if d.leap then [1] else []) := by
+  obtain ⟨h1, h2, h3, h4, h5, h6⟩ := hv
+  have hdv : (⟨d.month, d.day, d.leap⟩ : D).valid := ⟨h1, h2, h3, h4⟩
+  have htv : (⟨d.hour, d.minute⟩ : T).valid := ⟨h5, h6⟩
+  have hmod : (⟨d.hour, d.minute⟩ : T).mod = d.moy % 1440 := by
+    simp only [T.mod, DT.moy, DT.intHoy]; omega
+  have hdoy1 : 1 ≤ d.doy := by unfold DT.doy; omega
+  refine ⟨date_make_of_valid _ hdv, (C08_time_roundtrip _ htv).1, rfl, hmod, ?_, ?_, ?_, ?_, ?_⟩
+  · show d.moy = (d.doy - 1) * 1440 + (d.hour * 60 + d.minute)
+    simp only [DT.moy, DT.intHoy]; omega
+  · exact C08_doy_fromDoy ⟨d.month, d.day, d.leap⟩ hdv
+  · rw [← hmod]; exact (C08_time_roundtrip _ htv).2.2
+  · exact make_of_valid d ⟨h1, h2, h3, h4, h5, h6⟩
+  · rcases d with ⟨mo, da, h, mi, leap⟩
+    cases leap <;> rfl
+
+/-- **Branches of `Date.from_doy`.**  Inside the year the `day == 0` branch (`month -= 1`) is taken
+    exactly on the days that end a month other than December, and there the result is that month's
+    last day (29 Feb for day 60 of a leap year); every other day takes the plain branch. -/
+theorem C08_fromDoy_branches (leap : Bool) (n : Nat) (h1 : 1 ≤ n) (h2 : n ≤ daysInYear leap) :
+    ((doyBranch leap n = .monthEnd) ↔ n ∈ monthEndDays leap) ∧
+    (doyBranch leap n = .monthEnd ∨ doyBranch leap n = .plain) ∧
+    (doyBranch leap n = .monthEnd →
+      ∃ m, 1 ≤ m ∧ m ≤ 11 ∧ n = daysBefore leap (m + 1) ∧ fromDoy leap n = .ok ⟨m, monthLen leap m, leap⟩) := by
+  have hall := doyBranchFact_all leap
+  rw [List.all_eq_true] at hall
+  have : n < 367 := by unfold daysInYear at h2; split at h2 <;> omega
+  have hk := hall n (List.mem_range.mpr this)
+  unfold doyBranchFact at hk
+  simp only [Bool.or_eq_true, Bool.not_eq_true', decide_eq_false_iff_not, Bool.and_eq_true,
+    decide_eq_true_eq] at hk
+  rcases hk with hk | ⟨⟨a, b⟩, c⟩
+  · exact absurd ⟨h1, h2⟩ hk
+  · refine ⟨a, b, fun hb => ?_⟩
+    obtain ⟨m, hm, hm1, hmn, hf⟩ := c hb
+    exact ⟨m, hm1, by have := List.mem_range.mp hm; omega, hmn, hf⟩
+
+/-- ... the other two branches: a negative day is refused, and past the end of the year the search
+    loop falls through (`UnboundLocalError` turned into `ValueError`). -/
+theorem C08_fromDoy_branches_outside (leap : Bool) :
+    (∀ k : Int, k < 0 → doyBranch leap k = .negative ∧ fromDoy leap k = .error .value) ∧
+    (∀ n : Nat, daysInYear leap < n → doyBranch leap n = .fallThrough ∧ fromDoy leap n = .error .value) := by
+  constructor
+  · intro k hk
+    simp [doyBranch, fromDoy, hk]
+  · intro n hn
+    have hq := findMonth_dayTable_none leap n hn
+    have : ¬ ((n : Int) < 0) := by omega
+    simp only [doyBranch, fromDoy, this, if_false, Int.toNat_natCast, hq, and_self]
+
+/-- **Branch of `DateTime.from_moy`.**  The month at which the search loop breaks is the month of the
+    date-time that comes back; past the end of the year the loop falls through. -/
+theorem C08_fromMoy_branch (leap : Bool) (m : Nat) :
+    (∀ d, fromMoy leap m = .ok d → moyBranch leap m = some d.month) ∧
+    (minutesInYear leap ≤ m → moyBranch leap m = none) := by
+  have h0 : (0 : Int) ≤ (m : Int) := by omega
+  have hn : ¬ ((m : Int) < 0) := by omega
+  constructor
+  · intro d hd
+    simp only [fromMoy, h0, if_true, Int.toNat_natCast, fromMoyNat] at hd
+    simp only [moyBranch, hn, if_false, Int.toNat_natCast]
+    cases hf : findMonth (minuteTable leap) m with
+    | none => rw [hf] at hd; cases hd
+    | some mon =>
+      rw [hf] at hd
+      rw [make_ok_month hd]
+  · intro hge
+    have hq : daysInYear leap ≤ m / 1440 := by unfold minutesInYear at hge; omega
+    simp only [moyBranch, hn, if_false, Int.toNat_natCast]
+    rw [C08_tables_minutes, findMonth_scale _ _ (by decide), findMonth_none_of_ge leap _ hq]
+
+example : (⟨1, 1, 0, 10, false⟩ : DT).addMinuteQ (-3 / 5) = .ok ⟨1, 1, 0, 10, false⟩ := by decide +kernel
+example : (⟨1, 1, 0, 10, false⟩ : DT).subMinuteQ (5 / 2) = .ok ⟨1, 1, 0, 8, false⟩ := by decide +kernel
+example : (⟨1, 1, 0, 8, false⟩ : DT).addMinuteQ (5 / 2) = .ok ⟨1, 1, 0, 10, false⟩ := by decide +kernel
+example : calcHM 5 (597 / 10) = (6, 0) := by decide +kernel
+example : doyBranch true 60 = .monthEnd ∧ fromDoy true 60 = .ok ⟨2, 29, true⟩ := by decide
+example : 60 ∈ monthEndDays true ∧ 59 ∈ monthEndDays false := by decide
 
 /-! ### Non-vacuity: the hypotheses above are met by concrete non-trivial states -/
 
